@@ -43,10 +43,10 @@ func c01Check(x *vcRun, s *vcState, hist []vcEv) []hbfs.Fail {
 }
 
 func TestVerif_C01(t *testing.T) {
-	vcMain(t, &vcProp{ID: "C01", Check: c01Check, Universes: []string{"pol", "set", "route", "dup"}},
+	vcMain(t, &vcProp{ID: "C01", Check: c01Check, Universes: []string{"pol", "set", "route", "route6", "dup"}},
 		"states = (datastore content, in-sync flag, shadow dataplane content, EventSequencer pending-object digest) reached by histories of "+
-			"set(key,variant)/del(key)/flush/insync over four universes (pol: tiers, policies, profile labels+rules, WEP, HEP; set: rule selectors, named ports, "+
-			"shared IPs, remote WEP, network set; route: nodes, VXLAN host config, IP pool, IPAM block, WEP address; dup: profile lists naming a profile twice), "+
+			"set(key,variant)/del(key)/flush/insync over five universes (pol: tiers, policies, profile labels+rules, WEP, HEP; set: rule selectors, named ports, "+
+			"shared IPs, remote WEP, network set; route: nodes, VXLAN host config, IP pool, IPAM block, WEP address; route6: the IPv6 twin of route with in-place IPv6 underlay/subnet changes; dup: profile lists naming a profile twice), "+
 			"each explored from an empty graph and from a fully populated, in-sync, flushed graph; re-delivering the current value (duplicate), deleting an absent key "+
 			"(spurious delete), reverting and coalescing are ordinary events of the alphabet; transitions = one event replayed on a fresh real graph "+
 			"(ValidationFilter->CalcGraph->EventSequencer); in every state: probe (in-sync + flush) then compare with a fresh graph fed only the latest content "+
